@@ -80,6 +80,23 @@ def type_shape(facts):
                 k = lexpr(push, tt["args"][1])
                 v = lexpr(push, tt["args"][2])
                 okp = k == ("p", 2, ()) and v == ("p", 3, ())
+    if push is not None and not okp:
+        # the insert may sit in a closure that push hands to a private lock helper: resolve captured operands to push's own
+        for cb_ in facts.closures_of(push):
+            for _bi, tt in cb_.calls():
+                fn = tt.get("fn") or {}
+                if fn.get("name") == "insert" and "BTreeMap" in (fn.get("full") or ""):
+                    def up(e):
+                        if isinstance(e, tuple) and e and e[0] == "p" and e[1] == 1 and e[2] and re.match(r"^\.\d+$", e[2][0]):
+                            idx = int(e[2][0][1:])
+                            for _b2, _s2, st in push.iter_stmts():
+                                if st["k"] == "assign" and st["rv"]["k"] == "agg" and st["rv"].get("closure") == cb_.id \
+                                        and idx < len(st["rv"]["ops"]):
+                                    return lexpr(push, st["rv"]["ops"][idx])
+                        return e
+                    k = up(lexpr(cb_, tt["args"][1]))
+                    v = up(lexpr(cb_, tt["args"][2]))
+                    okp = k == ("p", 2, ()) and v == ("p", 3, ())
     t.row(okp, "par::ParSink::push", "insert(idx, element)", "ParSink::push does not insert its element under its index")
     fin = facts.bodies.get("par::ParSink::<T>::finalize")
     okf = False
